@@ -1,3 +1,4 @@
+from common import guarded
 """C15  Quantile estimates stay inside the data range and bookkeeping is exact.  Engine RS + K."""
 import terms as tm
 from terms import T, INT, UINT, REAL, TRUE, FALSE, And, Not, Or, real, ite
@@ -125,7 +126,7 @@ def run(tier, seed):
                  [(pp.pc, And(pp.result.ge(T.sym("q0")), pp.result.le(T.sym("q4"))) if not tm.mentions(pp.result) else FALSE) for pp in paths if not pp.panic])
     obs = pr.obs
     import vl
-    obs += vl.run_lemmas("C15", ["stagewise"])
+    obs += guarded("C15.engine.vl.run_lemmas@L128", lambda: vl.run_lemmas("C15", ["stagewise"]))
     # K: bit-precise parts
     job = KaniJob("C15", timeout=2400 if tier == "thorough" else 600, harness_timeout=2000 if tier == "thorough" else 400)
     job.include_module(F, "quantile.rs")
@@ -135,8 +136,8 @@ def run(tier, seed):
         # float-heavy in CBMC (the RS stage contracts prove both under exact reals in the quick tier)
         # (the bit-precise integer skeleton of add, harness add_positions_step, does not terminate within 2000 s: not registered)
         job.add(Harness("linear_between_f64", "C15.Quantile.linear.between_f64", F + "::Quantile::linear"))
-    obs += job.run()
-    obs += extreme_magnitudes_corpus()
+    obs += guarded("C15.engine.job.run@L138", lambda: job.run())
+    obs += guarded("C15.engine.extreme_magnitudes_corpus@L139", lambda: extreme_magnitudes_corpus())
     meta = {
         "level": "proof",
         "checker_cmd": "./check C15 (rsx -> RS executor -> z3; cargo kani on a scratch copy + contracts/kani/quantile.rs)",
